@@ -69,12 +69,13 @@ def ack_adversary(run, r, c):
             w.net.inject(direction, c.addr, f, "header-rewrite:" + name)
             run.c.inc("adv_rewritten_acks")
     w.tick_hooks.append(tick)
+    return lambda: w.tick_hooks.remove(tick)
 
 
 def run_shard(cfg):
     out = {"violations": [], "counters": Counter(), "samples": [], "distinct": set()}
     n = c05.run_faults(cfg, out, props=PROPS, tag="C07", extra=ack_adversary)
-    return {"evaluations": n, "distinct": sorted(out["distinct"]), "counters": dict(out["counters"]),
+    return {"evaluations": n, "distinct": sorted(out["distinct"]), "distinct_count": out.get("distinct_n", 0), "counters": dict(out["counters"]),
             "violations": out["violations"][:60], "samples": out["samples"]}
 
 
@@ -92,7 +93,7 @@ def finish(tier, seed, results):
                 "reorder / slow (rtt > resend interval) / very-slow (rtt > message timeout) / one-way ack loss / hostile, plus an "
                 "adversary replaying stale datagrams and injecting forged and rewritten ack fields every few ticks; then a healed network "
                 "until quiescence. Every _handle_ack/_handle_timeout is compared with the reference resolution model. distinct = "
-                "distinct fault worlds",
+                "application sends made inside fault worlds (unique payload id, own network fate)",
         "fault_classes": ["k-th carrying datagram lost", "acks lost", "lossy", "dup", "reorder", "slow", "very-slow", "acks-lost", "hostile",
                           "stale replay", "forged ack naming pending datagrams", "rewritten ack field (with/without CRC)"],
         "samples": m["samples"],
